@@ -11,6 +11,7 @@ import (
 	"fmt"
 	"io"
 	"math/rand"
+	"os"
 
 	"github.com/golang/protobuf/proto"
 	"github.com/itchio/savior/seeksource"
@@ -37,16 +38,17 @@ type wireEvent struct {
 }
 
 type wireSession struct {
-	Case   int         `json:"case"`
-	Algo   string      `json:"algo"`
-	Q      int32       `json:"q"`
-	MLens  []int       `json:"mlens"` // marshalled length of every message
-	Start  int         `json:"start"` // 0: first reader; k>0: resumed from the checkpoint popped after k messages
-	CpOff  int64       `json:"cpoff"`
-	CpSrc  int64       `json:"cpsrc"`
-	Events []wireEvent `json:"events"`
-	Desc   string      `json:"desc"`
-	Bytes  int         `json:"bytes"`
+	Case    int         `json:"case"`
+	Algo    string      `json:"algo"`
+	Q       int32       `json:"q"`
+	MLens   []int       `json:"mlens"` // marshalled length of every message
+	Start   int         `json:"start"` // 0: first reader; k>0: resumed from the checkpoint popped after k messages
+	CpOff   int64       `json:"cpoff"`
+	CpSrc   int64       `json:"cpsrc"`
+	Events  []wireEvent `json:"events"`
+	Desc    string      `json:"desc"`
+	Bytes   int         `json:"bytes"`
+	Rewound int         `json:"rewound"` // > 0: not a new reader but one that had read this many messages and was rewound with Resume(cp)
 }
 
 func openReader(stream []byte) (*wire.ReadContext, error) {
@@ -237,8 +239,15 @@ func cmdC13(args []string) error {
 		}
 
 		// ---- one reading session, from boundary `start` (checkpoint cp) to the end
-		session := func(start int, cp *wire.MessageReaderCheckpoint, wantEvery int, collect bool) (rse *wireSession, rcps []*wire.MessageReaderCheckpoint, rat []int) {
+		// rewindAfter > 0: the reader is NOT new. It first reads rewindAfter messages from the start of the stream, is
+		// asked to save on the way (WantSave before the last of them, or after it when lateWant) and nobody pops; then
+		// the SAME reader is rewound with Resume(cp) - what a patcher object that is resumed a second time does.
+		session := func(start int, cp *wire.MessageReaderCheckpoint, wantEvery int, collect bool, rewindAfter int, lateWant bool) (rse *wireSession, rcps []*wire.MessageReaderCheckpoint, rat []int) {
 			se := &wireSession{Case: k, Algo: cs.a.String(), Q: cs.q, MLens: mlens, Start: start, Desc: desc, Bytes: len(sbytes), Events: []wireEvent{}}
+			if rewindAfter > 0 {
+				se.Desc = fmt.Sprintf("%s (same reader rewound after %d messages with a save pending, lateWant=%v)", desc, rewindAfter, lateWant)
+				se.Rewound = rewindAfter
+			}
 			var cps []*wire.MessageReaderCheckpoint
 			var at []int
 			fail := func(err error) (*wireSession, []*wire.MessageReaderCheckpoint, []int) {
@@ -254,6 +263,17 @@ func cmdC13(args []string) error {
 			rc, err := openReader(sbytes)
 			if err != nil {
 				return fail(err)
+			}
+			for m := 0; m < rewindAfter; m++ {
+				if m == rewindAfter-1 && !lateWant {
+					rc.WantSave()
+				}
+				if err := rc.ReadMessage(&pwr.SyncOp{}); err != nil {
+					return fail(errors.WithMessage(err, "before rewinding"))
+				}
+			}
+			if rewindAfter > 0 && lateWant {
+				rc.WantSave()
 			}
 			if cp != nil {
 				se.CpOff, se.CpSrc = cp.Offset, -1
@@ -284,6 +304,24 @@ func cmdC13(args []string) error {
 				if wantEvery > 0 && (idx-start)%wantEvery == 0 {
 					rc.WantSave()
 					se.Events = append(se.Events, wireEvent{E: "want", Off: -1, Emit: -1})
+				}
+				if rewindAfter > 0 && idx == start {
+					// a rewound reader has read nothing since Resume: whatever it pops here predates the rewinding
+					c := rc.PopCheckpoint()
+					pe := wireEvent{E: "pop", Idx: idx, Off: -1, SrcOff: -1, Emit: -1}
+					if c != nil {
+						pe.Off = c.Offset
+						if c.SourceCheckpoint != nil {
+							pe.SrcOff = c.SourceCheckpoint.Offset
+						}
+						if collect {
+							if rt, err := gobRoundTrip(c); err == nil {
+								cps = append(cps, rt)
+								at = append(at, idx)
+							}
+						}
+					}
+					se.Events = append(se.Events, pe)
 				}
 				op := &pwr.SyncOp{}
 				err := rc.ReadMessage(op)
@@ -321,7 +359,7 @@ func cmdC13(args []string) error {
 		if k%4 == 3 {
 			wantEvery = 1 + rng.Intn(4)
 		}
-		s0, cps, at := session(0, nil, wantEvery, true)
+		s0, cps, at := session(0, nil, wantEvery, true, 0, false)
 		w.emit(s0)
 		w.flush()
 		// resume from every popped checkpoint (bounded for very long streams)
@@ -330,9 +368,37 @@ func cmdC13(args []string) error {
 			step = len(cps) / 24
 		}
 		for i := 0; i < len(cps); i += step {
-			sr, _, _ := session(at[i], cps[i], 1+rng.Intn(3), false)
+			fresh, err := gobRoundTrip(cps[i])
+			if err != nil {
+				return err
+			}
+			sr, _, _ := session(at[i], fresh, 1+rng.Intn(3), false, 0, false)
 			w.emit(sr)
 			w.flush()
+		}
+		// rewound readers: back to an earlier checkpoint with a save still pending; every checkpoint popped afterwards
+		// goes to a new reader like any other
+		for j := 0; j < 3 && len(cps) >= 1; j++ {
+			i := rng.Intn(len(cps))
+			if at[i] >= len(mlens) {
+				continue
+			}
+			after := at[i] + 1 + rng.Intn(len(mlens)-at[i])
+			cpc, err := gobRoundTrip(cps[i])
+			if err != nil {
+				return err
+			}
+			if os.Getenv("C13_DEBUG") == "1" {
+				fmt.Fprintf(os.Stderr, "case %d: cp %d off=%d used before\n", k, i, cpc.Offset)
+			}
+			sw, cps2, at2 := session(at[i], cpc, 1+rng.Intn(2), true, after, j == 2)
+			w.emit(sw)
+			w.flush()
+			for q := 0; q < len(cps2) && q < 3; q++ {
+				sr, _, _ := session(at2[q], cps2[q], 1+rng.Intn(3), false, 0, false)
+				w.emit(sr)
+				w.flush()
+			}
 		}
 	}
 	fmt.Printf("{\"lines\":%d}\n", w.n)
